@@ -200,7 +200,7 @@ let rec read_event c : event =
       let ra = next_z c in
       let rb = next_z c in
       let h = read_headers c in
-      EvSetEntry (k, { e_status = status; e_hdr = h; e_body = body; e_req_at = ra; e_recv_at = rb })
+      EvSetEntry (k, { e_id = k; e_status = status; e_hdr = h; e_body = body; e_req_at = ra; e_recv_at = rb })
   | "I" ->
       let k = next_b c in
       let n = next_int c in
